@@ -19,7 +19,11 @@ def call_op(rng, f, fx, threads, nkeys):
         op["inv"] = rng.random() < 0.4
     if fi["cfg"]["maxmem"]:
         mm = fi["cfg"]["maxmem"]
-        op["size"] = rng.choice([32, 40, mm // 2, mm // 2 + 6, mm - 8, mm, mm + 1, mm + 30])
+        if mm > (1 << 21):
+            # a limit too large to fill (e.g. "1GB"): small values only, nothing may ever be evicted
+            op["size"] = rng.choice([32, 40, 1000, 5000])
+        else:
+            op["size"] = rng.choice([32, 40, mm // 2, mm // 2 + 6, mm - 8, mm, mm + 1, mm + 30])
     return op
 
 
